@@ -81,7 +81,7 @@ func ruleCCITTRunBoundary(c *core.Ctx) {
 func runC07(c *core.Ctx) {
 	ruleLZWConstants(c, "C07-R1")
 	ruleCodecConstants(c)
-	rulePaeth(c)
+	rulePaeth(c, "C07-R4")
 	ruleLZWWidthAdvance(c, "C07-R5")
 	rulePredictorGeometry(c, "C07-R6")
 	ruleTIFF16Carry(c, "C07-R7")
@@ -477,8 +477,8 @@ func ruleCodecConstants(c *core.Ctx) {
 	})
 }
 
-func rulePaeth(c *core.Ctx) {
-	c.Check("C07-R4", "pdf/internal/filter/predict.paethPredictor", "Paeth predictor (PNG specification): choose a if pa <= pb and pa <= pc, else b if pb <= pc, else c — ties are broken in the order a, b, c", func(o *core.Ob) {
+func rulePaeth(c *core.Ctx, rule string) {
+	c.Check(rule, "pdf/internal/filter/predict.paethPredictor", "Paeth predictor (PNG specification): choose a if pa <= pb and pa <= pc, else b if pb <= pc, else c — ties are broken in the order a, b, c", func(o *core.Ob) {
 		fn := c.Prog.Func("pdf/internal/filter/predict", "paethPredictor")
 		o.At(fn.Site(fn.Decl, ""))
 		info := fn.Info()
